@@ -269,10 +269,24 @@ func (c *Persistent) IDs() (ids []string) {
 	}
 
 	for _, mac := range c.MACs {
-		ids = append(ids, mac.String())
+		ids = append(ids, macString(mac))
 	}
 
 	return append(ids, c.ClientIDs...)
+}
+
+// macString returns the text form of mac that [Persistent.SetIDs] reads back as
+// the same MAC address.  [net.HardwareAddr.String] separates the bytes with
+// colons, and the text of an 8-byte address written that way is also a valid
+// IPv6 address, which SetIDs tries first.  Such an address is written with
+// hyphens, which only [net.ParseMAC] accepts.
+func macString(mac net.HardwareAddr) (s string) {
+	s = mac.String()
+	if _, err := netip.ParseAddr(s); err == nil {
+		return strings.ReplaceAll(s, ":", "-")
+	}
+
+	return s
 }
 
 // IDsLen returns a length of ClientIDs.
